@@ -51,6 +51,23 @@ func main() {
 			panic(err)
 		}
 		fmt.Fprintf(realOut, "cases=%d\n", w.Count())
+	case "sub":
+		// one isolated scenario: driver sub <name> <arg>; its stdout is the result, a panic kills it
+		fn, ok := props.SubRegistry[os.Args[2]]
+		if !ok {
+			fmt.Fprintln(os.Stderr, "no sub scenario", os.Args[2])
+			os.Exit(2)
+		}
+		realOut := os.Stdout
+		if devnull, err := os.OpenFile(os.DevNull, os.O_WRONLY, 0); err == nil {
+			os.Stdout = devnull
+		}
+		arg := ""
+		if len(os.Args) > 3 {
+			arg = os.Args[3]
+		}
+		res := fn(arg)
+		fmt.Fprint(realOut, res)
 	case "enc":
 		sc := bufio.NewScanner(os.Stdin)
 		sc.Buffer(make([]byte, 1<<20), 1<<26)
